@@ -45,6 +45,7 @@ def summarize(e, spec, wall, err=None):
         'cuts': e.cuts if e else 0, 'fp_ops': dict(e.fp_ops) if e else {},
         'footprints': getattr(e, 'footprints', [])[:4] if e else [],
         'traces': e.traces if e else [], 'path_kinds': dict(e.path_kinds) if e else {},
+        'cross_check': dict(e.xc) if e else {},
         'observes_last': [(k, str(v)[:80]) for k, v in (e.last_state.observes[:16] if e and hasattr(e, 'last_state') else [])],
     }
 
